@@ -161,6 +161,39 @@ def check_merge(tracks, merged):
     return None
 
 
+def check_special_inputs():
+    """Inputs the model's ids cannot express: events that are equal (every one of them is kept),
+    and delta times that are no integers (kept exactly; only save() needs integers)."""
+    import mido
+    M, MM = mido.Message, mido.MetaMessage
+    out = []
+    same = [MM('set_tempo', tempo=500000, time=0), MM('time_signature', numerator=3, denominator=4, time=0),
+            MM('key_signature', key='D', time=0), M('note_on', note=60, time=0)]
+    t1 = mido.MidiTrack([m.copy() for m in same] + [M('note_on', note=1, time=5), MM('set_tempo', tempo=500000, time=0)])
+    t2 = mido.MidiTrack([m.copy() for m in same] + [m.copy() for m in same] + [MM('set_tempo', tempo=500000, time=5)])
+    for sk in (False, True):
+        try:
+            r = mido.merge_tracks([t1, t2], skip_checks=sk)
+        except Exception as e:
+            out.append(('raises/%s/identical-events' % type(e).__name__, repr(e)))
+            continue
+        kinds = sorted((m.type, m.time) for m in r)
+        exp = sorted([(m.type, 0) for m in same] * 3 + [('note_on', 5), ('set_tempo', 0), ('set_tempo', 0), ('end_of_track', 0)])
+        if kinds != exp:
+            out.append(('wrong-result/identical-events', 'equal events on one tick: merged to %r expected %r' % (kinds, exp)))
+    a = mido.MidiTrack([M('note_on', note=1, time=0.5), M('note_on', note=2, time=0.5), M('note_on', note=3, time=0.1 + 0.2)])
+    b = mido.MidiTrack([M('note_on', note=4, time=0.25), M('note_on', note=5, time=1.5), MM('end_of_track', time=2.5)])
+    try:
+        r = mido.merge_tracks([a, b])
+        got = [(getattr(m, 'note', 0), m.time) for m in r]
+        exp = [(4, 0.25), (1, 0.25), (2, 0.5), (3, (0.5 + 0.5 + (0.1 + 0.2)) - 1.0), (5, 1.75 - (1.0 + (0.1 + 0.2))), (0, 2.5)]
+        if [g[0] for g in got] != [e[0] for e in exp] or any(abs(g[1] - e[1]) > 1e-9 for g, e in zip(got, exp)):
+            out.append(('wrong-result/fractional-times', 'tracks with fractional delta times merged to %r expected %r' % (got, exp)))
+    except Exception as e:
+        out.append(('raises/%s/fractional-times' % type(e).__name__, repr(e)))
+    return out[:3]
+
+
 def check_million(n=(1 << 20) + 1):
     """Scale: more than 2**20 messages in one merge.  The input has a shape whose
     merge is immediate: track A has n-3 notes one tick apart, track B three
@@ -214,6 +247,9 @@ def worker(lines):
 
 
 def replay(case):
+    if case.get('kind') == 'special':
+        v = check_special_inputs()
+        return v and '%s: %s' % v[0]
     if case.get('kind') == 'million':
         r = check_million()
         return r and '%s: %s' % r
@@ -311,6 +347,9 @@ CHECK_DEADLOCK FALSE
     ctx.exhaustive = True
     ctx.constants = {'plans': plans}
     ctx.assumptions += ['message content is represented by a distinct note_on per event; end_of_track by the real meta message']
+    for key, msg in check_special_inputs():
+        ctx.violation('merge/' + key, {'kind': 'special'}, msg)
+    ctx.replayed += 3
     r = scale_job.get(timeout=1800)
     scale_pool.close()
     ctx.replayed += 1
